@@ -103,7 +103,7 @@ macro_rules! shape_call {
     ($nd:ident, $r:ident, $twin:ident, $T:ty, $c:expr, $MI:expr, $MO:expr, $entry:ident, $full:expr) => {{
         let need_in = $r.input_frames_next();
         let need_out = $r.output_frames_next();
-        $nd.assume(need_in + 1 <= $MI && need_out + 1 <= $MO);
+        $crate::fit!($nd, need_in + 1 <= $MI && need_out + 1 <= $MO, "C13.demand_fits_scenario_bound[base]");
         let sh = draw($nd, $c, need_in, need_out, need_in + 1, need_out + 1);
         let a0 = [1.0 as $T; $MI];
         let a1 = [2.0 as $T; $MI];
@@ -361,7 +361,7 @@ harnesses! {
         while k < 2 {
             let n = r.input_frames_next();
             check!(n == t.input_frames_next(), "C13.harness_twins_in_step[base]");
-            nd.assume(pos + n <= 24);
+            crate::fit!(nd, pos + n <= 24, "C13.demand_fits_scenario_bound[base]");
             check!(r.process_into_buffer(&[&x[pos..pos + n]], &mut [&mut y[..]], None).is_ok(), "C03.ok[base]");
             check!(t.process_into_buffer(&[&x[pos..pos + n]], &mut [&mut y[..]], None).is_ok(), "C03.ok[base]");
             pos += n;
@@ -370,7 +370,7 @@ harnesses! {
         let which = nd.u8();
         nd.assume(which < 3);
         let n = r.input_frames_next();
-        nd.assume(pos + n <= 24 && n >= 1);
+        crate::fit!(nd, pos + n <= 24 && n >= 1, "C13.demand_fits_scenario_bound[base]");
         let mut z = [SENT; 2];
         let e = if which == 0 {
             r.process_into_buffer(&[&x[pos..pos + n - 1]], &mut [&mut z[..]], None)          // input one frame short
